@@ -79,6 +79,15 @@ TModeSwitch ==
     /\ ObsOK(Tr[l])
     /\ l' = l + 1
 
+(* close and reopen: nothing the model tracks changes; the file comes back in collective data mode *)
+TReopen ==
+    /\ Tr[l].e \in {"close", "open"} /\ "setup" \notin DOMAIN Tr[l].a
+    /\ Tr[l].rc = "NC_NOERR" /\ Q = <<>>
+    /\ indep' = FALSE
+    /\ UNCHANGED vars
+    /\ ObsOK(Tr[l])
+    /\ l' = l + 1
+
 TAccess ==
     /\ Tr[l].e \in {"put", "get"} /\ "setup" \notin DOMAIN Tr[l].a
     /\ UNCHANGED indep
@@ -137,7 +146,7 @@ TBuffer ==
     /\ ObsOK(Tr[l])
     /\ l' = l + 1
 
-TNext == l <= Len(Tr) /\ (TReset \/ TSetup \/ TModeSwitch \/ TAccess \/ TWait \/ TBuffer)
+TNext == l <= Len(Tr) /\ (TReset \/ TSetup \/ TReopen \/ TModeSwitch \/ TAccess \/ TWait \/ TBuffer)
 TInit == l = 1 /\ indep = FALSE /\ Init
 TraceSpec == TInit /\ [][TNext]_tvars
 
